@@ -56,6 +56,7 @@ FreshState ==
    slog   |-> <<>>,   \* allocations currently on the stack, oldest first: [id, n, sz, al, b, off]
    expect |-> <<>>,   \* after an unwind: what a repetition of the requests must return
    eidx   |-> 1,
+   snap   |-> {},     \* upstream blocks that were outstanding when the previous API call returned
    over   |-> FALSE]  \* execution ended abnormally
 
 Blk(b) == st.blocks[b + 1]
@@ -156,6 +157,10 @@ OnAlloc(e) ==
                 "C03", "ThrowIsLibraryFamily", <<o.fam, e.r>>)
        \cup Chk(~(e.r \in OomFamily) \/ PendK("oom") # {}, "C03", "HandlerCalledFirst", <<o.fam, e.r>>)
        \cup Chk(~(e.r \in SizeFamily) \/ PendK("badsize") # {}, "C03", "HandlerCalledFirst", <<o.fam, e.r>>)
+       \* a request that does not fit into what is left must fail, not "succeed" somewhere else
+       \cup Chk(~(ok /\ stackLike /\ e.ups = 0 /\ e.cap0 >= 0 /\ (o.fam # "stack" \/ e.t \/ e.b = o.curblk))
+                  \/ e.len + 2 * fence <= e.cap0,
+                "C03", "ImpossibleRequestNeverSucceeds", <<o.fam, e.len, e.al, e.cap0, e.cap1>>)
        \cup Chk(~(ok /\ traitsIface) \/ (e.al <= e.mxal /\ IF e.op = "n" THEN e.sz <= e.mxn ELSE e.len <= e.mxa),
                 "C18", "AboveMaxNeverSucceeds", <<o.fam, e.op, e.n, e.sz, e.al, e.mxn, e.mxa, e.mxal>>)
        \* ---- C01 / C02: what a successful allocation returns ----
@@ -276,6 +281,8 @@ OnNi(e) ==
 OnMove(e) ==
   LET from == Obj(e.from)
       moveLive == {IF a.o = e.from THEN [a EXCEPT !.o = e.to] ELSE a : a \in st.live}
+      srcBlocks == {i \in st.snap : st.blocks[i].src = from.src /\ ~st.blocks[i].st}
+      kept == \A i \in srcBlocks : st.blocks[i].live
   IN IF e.k = "ctor"
      THEN Result([st EXCEPT !.objs = Append([@ EXCEPT ![e.from + 1].status = "moved", ![e.from + 1].net = 0], from),
                             !.live = moveLive, !.pend = <<>>, !.inj = 0],
@@ -289,6 +296,10 @@ OnMove(e) ==
                                !.live = moveLive, !.pend = <<>>, !.inj = 0],
                Chk(e.r = "ok", "C12", "MoveNeverThrows", <<e.r>>)
                \cup Chk(old = {}, "C12", "AssignReleasesOldOnce", <<to.fam, old>>)
+               \* every block the source held (used or cached) travels with the move
+               \cup Chk(kept, "C12", "MoveKeepsSourceBlocks", <<from.fam, srcBlocks>>)
+               \cup Chk(kept \/ from.fam # "stack", "C06", "UnwoundBlocksCached", <<"move", srcBlocks>>)
+               \cup Chk(kept, "C05", "CachedBlocksReturnedOnlyByShrinkOrDestroy", <<from.fam, srcBlocks>>)
                \cup Chk(e.ups = 0, "C12", "MoveAssignNoUpstreamAllocation", <<e.ups>>)
                \cup NoStrayReports("move") \cup NoLeakReport("move"))
 
@@ -332,10 +343,25 @@ OnTdx(e) ==
     \cup Chk(e.bad = 0, "C08", "ForeignMemoryUntouched", <<e.id, e.bad>>)
     \cup NoStrayReports("tdx"))
 
+(* draining: the reported number of free nodes is what can actually be obtained without growing *)
+OnDrain(e) ==
+  LET o == Obj(e.o)
+      \* a collection may carve more nodes for the bucket out of the current block while draining
+      exactly == o.fam = "pool"
+  IN Result([st EXCEPT !.pend = <<>>, !.inj = 0],
+       Chk(e.r \in {"ok"}, "C03", "TryNeverThrows", <<"drain", e.r>>)
+       \cup Chk(e.ups = 0, "C03", "TryNeverGrows", <<"drain", e.ups>>)
+       \cup Chk(IF exactly THEN e.got = e.fn0 ELSE e.got >= e.fn0, "C04", "ReportedCapacityIsUsable", <<o.fam, e.sz, e.fn0, e.got>>)
+       \cup Chk(e.inside = e.got, "C01", "InsideOwned", <<"drain", e.got, e.inside>>)
+       \cup Chk(~exactly \/ e.fn1 = 0, "C04", "CapacityMovesByTaken", <<"drain", e.fn1>>)
+       \cup Chk(IF exactly THEN e.fn2 = e.fn0 ELSE e.fn2 >= e.fn0, "C04", "DeallocReturnsWhatWasTaken", <<"drain", e.fn0, e.fn2>>)
+       \cup NoStrayReports("drain") \cup NoLeakReport("drain"))
+
 OnSweep(e) ==
   Result([st EXCEPT !.pend = <<>>],
          Chk(e.nbad = 0, "C01", "ContentIntactAtSweep", <<e.bad>>)
-         \cup Chk(e.gd = 0, "C01", "NoWriteOutsideOwnedBlocks", <<e.gd>>))
+         \cup Chk(e.gd = 0, "C01", "NoWriteOutsideOwnedBlocks", <<e.gd>>)
+         \cup Chk(e.dd = 0, "C12", "NoWriteIntoReturnedBlocks", <<e.dd>>))
 
 OnDied(e) ==
   Result([st EXCEPT !.over = TRUE], {V("ANY", "NoCrash", <<e.how, e.code>>)})
@@ -361,6 +387,7 @@ Apply(e) ==
     [] e.e = "move" -> OnMove(e)
     [] e.e = "destroy" -> OnDestroy(e)
     [] e.e = "sweep" -> OnSweep(e)
+    [] e.e = "drain" -> OnDrain(e)
     [] e.e = "salloc" -> OnSalloc(e)
     [] e.e = "sfree" -> OnSfree(e)
     [] e.e = "tdx" -> OnTdx(e)
@@ -377,7 +404,9 @@ Step ==
        IF e.e = "cfg" THEN cfg' = e /\ UNCHANGED <<x, st, viol>>
        ELSE IF e.e = "x" THEN x' = e.n /\ st' = FreshState /\ UNCHANGED <<cfg, viol>>
        ELSE LET res == Apply(e)
-            IN /\ st' = res.s
+                isCall == e.e \notin {"ua", "uf", "ux", "h"}
+                live2 == {i \in 1..Len(res.s.blocks) : res.s.blocks[i].live}
+            IN /\ st' = IF isCall THEN [res.s EXCEPT !.snap = live2] ELSE res.s
                /\ viol' = viol \cup (IF "ovf" \in DOMAIN e THEN {V("ANY", "ValueInRange", <<e.e>>)} ELSE {}) \cup res.v
                /\ UNCHANGED <<x, cfg>>
   /\ l' = l + 1
